@@ -540,7 +540,7 @@ func (b *bounder) prove(g lin, facts []lin) bool {
 type boundOb struct {
 	I    ssa.Instruction
 	Desc string
-	Goal []lin // all must be >= 0
+	Goal []lin       // all must be >= 0
 	Alt  map[int]lin // alternative goal for index k (e.g. high <= cap)
 	Text []string
 }
